@@ -112,7 +112,9 @@ MANIFEST = {
             "of an if-feature AST compiles and evaluates to its denotation, no crash), decvx (decimal64 value in a heap block of exactly "
             "its length, ASan; regression of /repo f731599), jsonnum-long (mantissas around 65535 bytes), and `robust` (impl/t_robust.c: "
             "structure-aware mutation of valid seeds under ASan+UBSan with a leak check per case, a CPU limit per case, dictionary "
-            "reference counts, log-location stack, module list, strict error-record rule, LY_EINT never returned, and a health workload "
+            "reference counts, log-location stack, module list unchanged after every rejected call (names, revisions, implemented, latest-revision "
+            "flag and the answers of ly_ctx_get_module_latest / _latest_ns for every loaded module; family `latest-flag`: newer revisions of loaded "
+            "modules rejected after the revision comparison, the class of seeded change C05-4), strict error-record rule, LY_EINT never returned, and a health workload "
             "compared with a fresh context) over lys_parse_mem (YANG, YIN, pattern and if-feature inside modules), lyd_parse_data_mem "
             "(XML, JSON x STRICT/ONLY/OPAQ/NO_STATE/ORDERED x PRESENT/NO_STATE/MULTI_ERROR), lyd_parse_op (RPC / notification / reply, YANG + "
             "NETCONF + RESTCONF envelopes), lyd_find_xpath, lyd_eval_xpath4, lys_find_xpath, lyd_find_path, lyd_new_path, "
